@@ -49,6 +49,7 @@ type ChainParams struct {
 	ForkBias      string
 	WideForks     bool
 	OddVectors    bool
+	CoverForks    [5]bool
 	ZeroHashMerge int // 1 = the merge block carries block_hash 0, 0 = random per chain, -1 = never
 	// Retry: regenerate with another sub-seed (at most 6 times) until this counter is non-zero
 	RetryUntil  string
@@ -137,6 +138,7 @@ func generateOnce(pr ChainParams) (res ChainResult) {
 		slashedSet: map[common.ValidatorIndex]bool{}, exitSet: map[common.ValidatorIndex]bool{}, activated: map[common.ValidatorIndex]bool{},
 		aggDone: map[common.Root]bool{}, Epochs: pr.Epochs, Absent: map[common.ValidatorIndex]bool{}, justified: map[common.Epoch]bool{}, modeOf: map[common.Epoch]string{}}
 	c.OpRate = sc.Rates
+	c.CoverForks = pr.CoverForks
 	c.ZeroHashMerge = pr.ZeroHashMerge > 0 || pr.ZeroHashMerge == 0 && c.Rng.Chance(35)
 	res.Stats = c.Stats
 	rec.Comment(fmt.Sprintf("chain %s scenario=%s seed=%d epochs=%d", pr.Name, sc.Name, pr.Seed, pr.Epochs))
@@ -254,7 +256,11 @@ func (c *Chain) Run(epochs int) error {
 	for c.Slot() < last {
 		s := c.Slot() + 1
 		// choose the next proposal slot
-		for s < last && c.Rng.Chance(skip) {
+		sk := skip
+		if c.NoSkipBeforePhase0Deposit && StateFork(c.St) == Phase0 && c.Stats.Get("phase0.deposit") == 0 {
+			sk = 0 // every phase0 slot gets a block until the eth1 vote went through and a deposit was included
+		}
+		for s < last && sk > 0 && c.Rng.Chance(sk) {
 			s++
 		}
 		// the first slot of a fork epoch always gets a block (with a non-empty sync aggregate from altair on):
